@@ -1,17 +1,65 @@
 package rules
 
-// Mutant is one overlay edit used to test the checker both ways (DESIGN 2.4).
+import (
+	"encoding/json"
+	"os"
+	"path/filepath"
+	"sort"
+	"strings"
+)
+
+// Mutant is one overlay edit used to test the checker both ways (DESIGN 2.4):
+// either a single find/replace in one file or a unified diff kept under
+// /verif/seeded (property-breaking changes that compile and pass the tests) or
+// /verif/benign (behaviour-preserving refactorings: the check must stay silent).
 type Mutant struct {
 	Name            string
 	File            string // relative to the repository root
 	Find            string // must occur exactly once, otherwise the mutant is inapplicable
 	Replace         string
-	ExpectRule      string // rule that must report a violation
+	Patch           string // path of a unified diff (-p1) to overlay instead of Find/Replace
+	ExpectRule      string // rule that must report a violation ("" = any rule of the property)
 	ExpectConstruct string // substring of the construct key
 	Benign          bool   // behaviour-preserving variant: the check must stay silent
 }
 
 var mutants = map[string][]Mutant{}
 
-// Mutants returns the mutation table of a property.
-func Mutants(prop string) []Mutant { return mutants[prop] }
+// Mutants returns the mutation table of a property: the static table plus the
+// patches found under verifDir/seeded/<prop>-* and verifDir/benign/<prop>-*.
+func Mutants(prop, verifDir string) []Mutant {
+	ms := append([]Mutant(nil), mutants[prop]...)
+	for _, kind := range []string{"seeded", "benign"} {
+		dirs, _ := filepath.Glob(filepath.Join(verifDir, kind, prop+"-*"))
+		sort.Strings(dirs)
+		for _, d := range dirs {
+			p := filepath.Join(d, "patch.diff")
+			if _, err := os.Stat(p); err != nil {
+				continue
+			}
+			var meta struct {
+				StaticExpected *bool  `json:"static_expected"`
+				ExpectRule     string `json:"expect_rule"`
+			}
+			if b, err := os.ReadFile(filepath.Join(d, "meta.json")); err == nil {
+				json.Unmarshal(b, &meta)
+			}
+			if meta.StaticExpected != nil && !*meta.StaticExpected {
+				continue
+			}
+			ms = append(ms, Mutant{Name: kind + "/" + filepath.Base(d), Patch: p, Benign: kind == "benign", ExpectRule: meta.ExpectRule})
+		}
+	}
+	return ms
+}
+
+// PatchFiles lists the files a unified diff touches (b/ side, -p1).
+func PatchFiles(diff string) []string {
+	var out []string
+	for _, l := range strings.Split(diff, "\n") {
+		if strings.HasPrefix(l, "+++ b/") {
+			out = append(out, strings.TrimSpace(strings.TrimPrefix(l, "+++ b/")))
+		}
+	}
+	return out
+}
